@@ -86,10 +86,33 @@ FIRST_WAVE_MISSED.update({
     "C04_g": "all field names started with a letter: every fifth definition now has a field name with a leading underscore",
     "C04_h": "the only float constant was 2.5: constants that need all their digits, computed ones (1 / RATE, 1.0 / 3), very small and large ones were added",
 })
+FIRST_WAVE_MISSED.update({
+    "C01_j": "a client-side loss (the Client discards queued frames while it waits for an acknowledgement): invisible to C01's raw clients; C02 now demands that frames delivered before an operation and still subscribed afterwards come out of read_message exactly once, and catches it (seeded/C01_j/check names C02)",
+    "C03_i": "the manager's console handler was switched off in every world: a configuration with the default console handler in place (rich formatting and markup, writing to a buffer) at INFO and ERROR level, and names that look like console markup, were added",
+    "C04_j": "no string constant contained an apostrophe and the MATLAB-subset interpreter took any quoted text: constants with apostrophes / percent signs / braces / empty, and MATLAB's quoting rules in the interpreter",
+    "C05_i": "the network model had no notion of a full send buffer: a receiver that is writable but has room for 100 bytes only is now an environment deviation (a blocking send waits; a non-blocking one writes a part)",
+    "C06_j": "every newcomer of the BFS alphabet had the logger flag off and acknowledgement copies were left to C19: a family 'newcomers must not disturb the incumbent' (module / logger / sharer of an id / dynamic module x refused and accepted requests with and without the logger flag) was added",
+    "C07_i": "the leaver never shared its id: a sibling connection with the same id stays and must keep being served; a connection refused at CONNECT after it had already sent requests",
+    "C08_i": "each undecodable frame kind had one fault: kinds that are wrong in size AND version were added",
+    "C11_j": "user fields never had a name of the form padding_<n>_: definitions with hand-written reserve fields of that name",
+    "C13_i": "no definition had a field named like a class attribute: such definitions are either refused or keep their hash in every output and on the wire",
+    "C13_j": "relocations only used plain file names: every output of closures relocated into files / directories whose names contain core_defs, core, defs",
+    "C14_i": "a logger and a FAILED_MESSAGE subscriber by name were always present: a population whose only observer is subscribed to everything",
+    "C14_j": "every published kind came from a client: a CLIENT_INFO published by the manager itself that cannot be delivered, followed by a second publication",
+    "C15_i": "all array lengths evaluated to ints: lengths given by float-valued constant expressions (true division)",
+    "C16_i": "declared and effective options always agreed: closures whose root file declares VALIDATE_ALIGNMENT / AUTO_PAD / IMPORT_COREDEFS values that the command line overrides or that are spelled out",
+    "C16_j": "both runs asked for all outputs in one invocation: the first run now asks for them in separate invocations",
+    "C17_i": "no data set named a concrete type next to the wildcard: dA does so in the two-set configurations",
+    "C17_j": "scripts in which messages still wait for their first flush when the recording is paused and resumed were neither in the quick nor in the thorough plan",
+    "C18_i": "clock steps never reached the 5-second broadcast: intervals with a 5.1 s step",
+    "C18_j": "NOT CAUGHT, and not claimed: messages with an unroutable destination are no longer counted. The statement counts messages 'handled for forwarding' and quantifies over forwarded types; whether a refused message counts has been listed as unspecified in the check's assumptions since the first build (the observer cannot see such messages)",
+    "C19_i": "no second logger ever asked for the connected logger's id: slot J does (refused), and the logger must keep getting its copies",
+    "C19_j": "loggers always connected with CONNECT_V2 + CONNECT: logger K connects with CONNECT alone",
+})
 NEUTRALIZED = {"C17_b": "the change re-ordered the two Event operations of the hand-off; the second data-logger repair made the pair atomic under a lock, so the re-ordering no longer breaks the property (the demonstration passes on the repaired tree)"}
 rows = []
 titles = {}
-for d in sorted(glob.glob(os.path.join(HERE, "seeded", "*_[abcdefgh]"))):
+for d in sorted(glob.glob(os.path.join(HERE, "seeded", "*_[abcdefghij]"))):
     sid = os.path.basename(d)
     ev = json.load(open(os.path.join(d, "eval.json"))) if os.path.exists(os.path.join(d, "eval.json")) else {}
     notes = open(os.path.join(d, "notes.md")).read() if os.path.exists(os.path.join(d, "notes.md")) else ""
@@ -97,7 +120,7 @@ for d in sorted(glob.glob(os.path.join(HERE, "seeded", "*_[abcdefgh]"))):
     prop = sid.split("_")[0]
     checks = ev.get("checks", {})
     fin = ev.get("final", {})
-    detected = {prop: fin.get("exit") == 1} if fin else {c: (v["exit"] == 1) for c, v in checks.items()}
+    detected = {fin.get("check", prop): fin.get("exit") == 1} if fin else {c: (v["exit"] == 1) for c, v in checks.items()}
     meta = {
         "id": sid, "property": prop, "origin": "independent sub-agent given only the property text and its own scratch worktree",
         "what_and_needs": first,
@@ -105,7 +128,7 @@ for d in sorted(glob.glob(os.path.join(HERE, "seeded", "*_[abcdefgh]"))):
                       "demo_with_patch": ev.get("demo_with_patch"), "demo_without_patch": ev.get("demo_without_patch")},
         "ran": [f"tools/seedeval.py seeded/{sid} {prop}  (scratch worktree: suite + demo with/without the patch; then `git -C /repo apply`, ./vcheck {' '.join(checks) or prop} --tier quick, `git -C /repo checkout -- .`)"],
         "detected_by": {c: {"detected": v["exit"] == 1, "exit": v["exit"], "violations": v["violations"], "what": v.get("what", [])[:2], "wall_s": v.get("wall_s")} for c, v in checks.items()},
-        "final_run": {"check": prop, "tier": "quick", "patch": fin.get("patch"), "repo_head": fin.get("repo_head"), "detected": fin.get("exit") == 1, "exit": fin.get("exit"),
+        "final_run": {"check": fin.get("check", prop), "tier": "quick", "patch": fin.get("patch"), "repo_head": fin.get("repo_head"), "detected": fin.get("exit") == 1, "exit": fin.get("exit"),
                       "violations": fin.get("violations"), "what": fin.get("what", [])[:2], "wall_s": fin.get("wall_s"),
                       "ran": f"tools/seed_recheck.py {sid}  (git -C /repo apply, ./vcheck {prop} --tier quick, git -C /repo checkout -- .)"},
         "neutralized": NEUTRALIZED.get(sid, ""),
